@@ -872,6 +872,10 @@ def inner(argv):
                     res["ra"] = scenario_ra(holder, plan, rnd)
                 elif sc == "dhcpflow":
                     res["dhcpflow"] = scenario_dhcpflow(holder, rnd, logpath)
+                    lost = [st["name"] for st in res["dhcpflow"]["steps"] if not st["expect"] and not st["processed"]]
+                    if lost:
+                        # neither answered nor logged as dropped within 10 s: "no reply" would not be an observation
+                        res["rig_error"] = "dhcpflow: the server gave no sign of having seen: %s" % ", ".join(lost)
                 elif sc == "dnshostile":
                     res["dns"] = scenario_dns(rnd, hostile_too=True)
                 mark("scenario %s done" % sc)
